@@ -24,7 +24,7 @@ from . import common
 from .common import rat, fmt_list, parse_list
 
 PROP = 'C19'
-GENERATED = ['Godambe']
+GENERATED = ['Godambe', 'Fold']     # Fold: the pointwise programs of Spectrum.fold that the folded-data likelihood (llModelSeen) is built from
 NEEDS_BUILD = False
 NEEDS_DRIVER = True
 DRIVER_MODULES = ['Godambe']
@@ -963,6 +963,40 @@ def l3_closed_forms(chk, ctx, case, small, key0, B, data, boots, func, p_in, f_i
                   'bootstrap as given, as H does for the data)' % (bits(np.ma.getmaskarray(boots[b])), rem[b])) if b in rem else ''
             if not crit(g, g2, ge, floorg, 'score of bootstrap %d' % b, 'score_closed_form', fullkey=fk, extra=ex): okg = False; break
         chk.stat('closed_form_scores', len(grads))
+    # ---- the PROVED explicit bounds (C19_get_hess_order, C19_get_grad_order: models linear in their parameters, central regime), evaluated
+    # on the real code: |H_fd - H| <= C_ij eps^2 and |g_fd - g| <= C_i eps^2 with the constants of the theorems (+ the round-off floor)
+    if mode == 'plain' and okH and okg:
+        P = np.abs(np.asarray(god['p0'], dtype=float)); Bs = B[1:][idx]; Mx = B[0] + np.asarray(pfull, dtype=float) @ B[1:]
+        def consts(dd, keep, t, a, b):
+            Ba, Bb = t * Bs[a][keep], t * Bs[b][keep]; Mk = t * Mx[keep]; ad = np.abs(dd[keep])
+            if a == b:
+                mu = float(np.min(Mk - eps * P[a] * np.abs(Ba)))
+                return mu, (float(np.sum(ad * Ba ** 4)) * P[a] ** 2 / mu ** 4 if mu > 0 else None), (float(np.sum(ad * np.abs(Ba) ** 3)) * P[a] ** 2 / mu ** 3 if mu > 0 else None)
+            sab = P[a] * np.abs(Ba) + P[b] * np.abs(Bb)
+            mu = float(np.min(Mk - eps * sab))
+            return mu, (float(np.sum(ad * sab ** 4)) / (2 * P[a] * P[b] * mu ** 4) if mu > 0 else None), None
+        bad = None
+        for a in range(N):
+            for b in range(a, N):
+                mu, CH, _ = consts(d, keep_d, 1.0, a, b)
+                if CH is None: chk.stat('proved_bound_skipped_model_not_positive_on_box'); continue
+                chk.stat('proved_bound_H_entries')
+                if not abs(H[a, b] - Hx[a, b]) <= CH * eps ** 2 * (1 + 1e-9) + floorH[a, b]:
+                    bad = ('H_proved_bound', 'entry (%d,%d) of the finite-difference H is %r, closed form %r: the difference exceeds the proved bound C*eps^2 = %r (C = %r, mu = %r)'
+                           % (a, b, float(H[a, b]), float(Hx[a, b]), CH * eps ** 2, CH, mu))
+        if not hess_only and bad is None:
+            for bi, (g, ge) in enumerate(zip(grads, gx)):
+                for a in range(N):
+                    mu, _, Cg = consts(bs[bi], keep_bs[bi], float(ths[bi]), a, a)
+                    if Cg is None: chk.stat('proved_bound_skipped_model_not_positive_on_box'); continue
+                    chk.stat('proved_bound_score_entries')
+                    if not abs(g[a] - ge[a]) <= Cg * eps ** 2 * (1 + 1e-9) + floorg[a]:
+                        bad = ('score_proved_bound', 'entry %d of the finite-difference score of bootstrap %d is %r, closed form %r: the difference exceeds the proved bound C*eps^2 = %r'
+                               % (a, bi, float(g[a]), float(ge[a]), Cg * eps ** 2))
+                        break
+                if bad: break
+        if bad:
+            chk.fail(key0 + ':' + bad[0], '%s, eps=%g: %s' % (api, eps, bad[1]), small); return
     if not (okH and okg): return
     if api == 'get_godambe' and hess_only: return
     # ---- the statistic itself against the statistic computed from the closed forms: tolerance from the sensitivities
@@ -1384,7 +1418,11 @@ def chi2_cases(chk, ctx, rng, count):
     for it in range(count):
         nw = int(rng.integers(2, 5))
         w = rng.dirichlet(np.ones(nw)); w = np.array([coarse(v, 16) for v in w]); w[-1] = 1.0 - float(np.sum(w[:-1]))
-        if it % 5 == 0: w = np.array([0.0, 1.0]) if it % 10 == 0 else np.array([0.5, 0.5])
+        directed = [(0, 0, 1), (0, 0, 0, 1), (0.5, 0, 0.5), (0, 0.5, 0, 0.5), (0.25, 0, 0.25, 0, 0.5), (0, 0.5, 0.5, 0), (1, 0, 0)]
+        if it < len(directed):
+            # exact zeros at interior positions, every run: the components after a zero keep THEIR degrees of freedom
+            w = np.array(directed[it], dtype=float); chk.stat('chi2:interior_zero_weights')
+        elif it % 5 == 0: w = np.array([0.0, 1.0]) if it % 10 == 0 else np.array([0.5, 0.5])
         elif it % 4 == 1:
             # exact zeros at arbitrary positions (components that are absent): the remaining components keep THEIR degrees of freedom
             nw = int(rng.integers(3, 6))
@@ -1394,7 +1432,7 @@ def chi2_cases(chk, ctx, rng, count):
             v = rng.dirichlet(np.ones(int(keep.sum()))); v = [coarse(x, 16) for x in v]; v[-1] = 1.0 - float(np.sum(v[:-1]))
             w = np.zeros(nw); w[np.flatnonzero(keep)] = v
         nw = len(w)
-        bad_w = bool(it % 9 == 4)
+        bad_w = bool(it % 9 == 4 and it >= 7)
         if bad_w: w = w * 1.01
         m = int(rng.integers(1, 6))
         xs = [coarse(v) for v in rng.uniform(0, 12, m)]
@@ -1472,17 +1510,22 @@ def run(chk, ctx):
                 'data does not; both, overlapping; corners unmasked in the model or in the data; corners unmasked in the model and in the bootstraps) on 11-16 samples, the closed forms summed over the entries masked in neither the '
                 'model nor the data (H) / the bootstrap (score), theta of a multinomial fit from the same entries; then random draws of the same options with nested index sets; eps log-uniform in [1e-4, 1e-1], each run also at '
                 'eps/2; bootstrap lists permuted; histories of 3-6 entry-point calls on two models sharing ns/pts and the null value of the nested parameter, each compared with '
-                'the same call on an empty cache; sum_chi2_ppf with 2-4 weights, scalar / list / tuple / ndarray / 0-d arguments, zeros, unnormalised weights. '
+                'the same call on an empty cache; every entry point x {2-3 populations, folded one-population data, folded P-population data} (the model function returns unfolded spectra); for every '
+                'case with varied boot_theta_adjusts a history [entry point, FIM_uncert, entry point with the (bootstrap, adjustment) pairs permuted together] on one function and one cache, '
+                'the cached spectra compared with fresh ones; sum_chi2_ppf with 2-5 weights incl. exact zeros at interior positions (directed list every run), scalar / list / tuple / ndarray / 0-d arguments, zeros, unnormalised weights. '
                 'non-trivial/distinct = distinct (kind of check, n, degree, parameter kinds, entry point, options)')
     chk.unproved = [
-        'O(eps^2) agreement of the finite-difference H, scores, J, cU and of the derived GIM/FIM uncertainties, LRT adjustment, Wald and score statistics with the closed forms of '
-        'linear Poisson models: numerical (L3: Richardson criterion at eps and eps/2 against analytic derivatives; the log-likelihood is not polynomial). Proved instead: exactness on '
-        'quadratics, the exact h^2 error terms on cubics/quartics, and that the closed forms themselves are the exact derivatives (C19_linear_poisson_exact_parts)',
+        'O(eps^2) for the quantities that need a matrix inverse (GIM = H J^-1 H, GIM/FIM uncertainties, LRT adjustment, adjusted Wald, score statistics) and for multinom=True / log=True '
+        '(the wrapped model theta*M(p) is bilinear, exp(logp) is not linear): numerical (L3: Richardson criterion at eps and eps/2 against the closed forms). PROVED since round 5, over the '
+        'reals with explicit constants, for every Poisson log-likelihood with means affine in the parameters: |get_hess - H| <= C eps^2, |get_grad - score| <= C eps^2 in the central regime '
+        '(C19_get_hess_order, C19_get_grad_order, stencil level C19_central_order / C19_central_mixed_order), first order for the one-sided stencils (C19_one_sided_order), hence J and cU '
+        '(C19_J_cU_order via the Lipschitz bound C19_J_cU_lipschitz); the proved constants are evaluated on the real code by L3 (keys ...:H_proved_bound, ...:score_proved_bound)',
         'round-off: theorems are about exact field arithmetic; the float code agrees with the exact model within 1e-9 plus the amplification u*|f|/(h_i h_j) inherent to differences',
         'numpy.linalg.inv / dot vs exact Gauss-Jordan: numerical (K), ill-conditioned J/H skipped on the model side',
         'Inference.ll inside get_godambe: its per-entry expression and its mask (which of model.mask / data.mask / non-positive model entries the summed array carries) are '
-        'generated from dadi/Inference.py and compared with the real ll on every pipeline case (K); log and gammaln values are inputs to the model; folded spectra and the '
-        'Spectrum(boot) re-wrapping are exercised, not modelled',
+        'generated from dadi/Inference.py and compared with the real ll on every pipeline case (K); log and gammaln values are inputs to the model. Folded data (the model is folded by '
+        'll_per_bin: generated switch llFoldsModel + the pointwise programs generated from Spectrum.fold) and P-population spectra are modelled since round 5 (op c19.llnd); the '
+        'folded_ancestral / folded_major prologues are accepted by the translator, not modelled',
         'log=True: the exp/log change of variables is checked by L3 closed forms only',
         'chi-square cdf values are scipy inputs to the model; only the mixture/flag logic of sum_chi2_ppf is modelled',
         'object identities (id reuse after a function object is freed) are interpreter facts: modelled by an explicit identity assignment, realised on the implementation by L3']
